@@ -34,19 +34,19 @@ T = {
         ref="4/C04",
     ),
     "C05": dict(
-        technique="static analysis: CFG reachability + def-use on the final sampling loop, sympy term identity for mean / standard error, slice-offset agreement",
-        text="Decides the structure of the final estimate: samples are taken at the very u that becomes x with the no-record flag, nothing evaluates after them, fval/fsd are mean / std/sqrt(n) of yval_vec, argmin over a[k:] is offset by k, and the noise test raises the level iff |y - y'| > tol_noise. Numeric values are not decided.",
+        technique="static analysis: CFG reachability + def-use on the final sampling loop, sympy term identity for mean / standard error, slice-offset agreement, guard analysis, provenance of the returned SD, store-group coherence",
+        text="Decides the structure of the final estimate: samples are taken at the very u that becomes x with the no-record flag, nothing evaluates after them, fval/fsd are mean / std/sqrt(n) of yval_vec, argmin over a[k:] is offset by k, and the noise test raises the level iff |y - y'| > tol_noise; the final re-sampling is guarded by the noisy mode and noise_final_samples > 0 only (known finding: an extra poll_iteration > 0 guard); the SD an evaluation returns is the target's own; the incumbent tuple stays coherent (shared with C19-R1). Numeric values are not decided.",
         note="Trusted: np.mean/np.std semantics.",
         ref="4/C05",
     ),
     "C07": dict(
-        technique="static analysis: effect enumeration of randomness/entropy sources, CFG dominance of the seed call, time-taint dataflow, global mutable state lint",
+        technique="static analysis: effect enumeration of randomness/entropy sources, CFG dominance of the seed call, interprocedural time-taint, global mutable state / globals() write lint, print-option dependency lint",
         text="Decides randomness-source discipline (only numpy's global generator and a Sobol engine seeded from the start point), that seeding dominates every draw in the constructor and in optimize(), that wall-clock values reach only timing slots, and that no process-global mutable state survives between instances.",
         note="Trusted: gpyreg/scipy draw from numpy's global legacy stream when no rng is passed; BLAS determinism.",
         ref="4/C07",
     ),
     "C08": dict(
-        technique="static analysis: guard checklist with comparison normal forms, quantifier-distribution lint, dtype-inheritance dataflow, call-graph reachability",
+        technique="static analysis: guard checklist over NaN-strict quantified-predicate normal forms (helpers inlined, validator and transformer combined), quantifier-distribution lint, dtype dataflow of in-place stores, call-graph reachability",
         text="Decides the structure of the validator: every documented invalid class has a raising guard (strictness included) on all paths before the transformer is built, validity predicates are per-coordinate, caller-supplied integer arrays are cast before float in-place stores, inputs are normalised with atleast_2d before comparison, and the constructor cannot reach the target.",
         note="Not proven: that no valid problem is rejected beyond the per-coordinate/strictness checks; rounding-distance cells are numeric.",
         ref="4/C08",
@@ -58,7 +58,7 @@ T = {
         ref="4/C09",
     ),
     "C10": dict(
-        technique="static analysis: CFG of the target-call handler, dominance of validation over record/count, call graph through try bodies, sibling cross-check",
+        technique="static analysis: CFG of the target-call handler, dominance of validation over record/count (one level into helpers), call graph through try bodies, sibling cross-check, target-value provenance with an is-array type-state",
         text="Decides that the handler around the target re-raises the same exception on every path, that validation raises dominate the record call and the counter increment, that no other try body in the package can reach the target, and that __call__ and add agree on the value/SD checklist (isscalar first).",
         note="Trusted: bare raise re-raises the active exception.",
         ref="4/C10",
@@ -70,7 +70,7 @@ T = {
         ref="4/C11",
     ),
     "C12": dict(
-        technique="static analysis: rank abstract interpretation, parallel-array consistency, parameter-provenance dataflow, effect sets, sympy term identity",
+        technique="static analysis: rank abstract interpretation, parallel-array consistency, parameter-provenance dataflow, growth-idiom recognition (fill / copy bound / guard agreement relative to the increment order), effect sets, sympy term identity",
         text="Decides the structure of the record routine on all paths: row index from a rank-1 mask, one index per path, parameters stored unchanged, growth covers exactly the per-row arrays, no-record path writes only counters/timing, merge is the precision-weighted mean, n_evals advances once per path.",
         note="Trusted: numpy argwhere/append semantics.",
         ref="4/C12",
@@ -88,13 +88,13 @@ T = {
         ref="4/C14",
     ),
     "C15": dict(
-        technique="static analysis: unit-tag (SD/VAR) dataflow into every s2 sink, who-may-write the GP training triple, parallel-array selector consistency, sympy identity for the LCB schedule",
+        technique="static analysis: unit-tag (SD/VAR) dataflow into every s2 sink, who-may-write the GP training triple, parallel-array selector consistency, may-alias analysis of the retried fit, sympy identity for the LCB schedule",
         text="Decides SD->variance unit discipline at every sink of gp.s2 / fit(s2), that the training triple is written only from the neighbour selector / incremental add, that U, Y, S are indexed by one ascending-distance selector with min/max clamps, and that the acquisition is mean - sqrt(beta_t)*sd with the documented schedule.",
         note="Trusted: gpyreg's s2 is a variance; argsort ascending.",
         ref="4/C15",
     ),
     "C16": dict(
-        technique="static analysis: handler analysis of every GP.fit call site, retry-loop bound, parallel-array consistency inside the retry",
+        technique="static analysis: handler analysis of every GP.fit call site, retry-loop bound, path-sensitive parallel-array consistency inside the retry, sibling agreement of fallback shapes",
         text="Decides that every hyperparameter fit is inside a retry loop under a non-re-raising LinAlgError handler admitting at least five attempts, that X, Y and the noise vector passed to the next fit are filtered through the same mask, and that the posterior update has a fallback.",
         note="Ten consecutive failures (res unbound) are outside the property's quantifier and reported as a diagnostic.",
         ref="4/C16",
